@@ -59,7 +59,7 @@ fn main() {
             let c = if args.iter().any(|a| a == "--routes") {
                 sim::engine::target_route_case(&reg, fam, var, false, seed)
             } else {
-                sim::engine::target_grid_case(&reg, fam, var, par, false, seed, args.iter().any(|a| a == "--compact"))
+                sim::engine::target_grid_case(&reg, fam, var, par, false, seed, args.iter().any(|a| a == "--compact"), arg(&args, "--dir").and_then(sim::registry::Dir::parse))
             }
             .unwrap_or_else(|| die("no such family/variant"));
             let anchors = Anchors::compute_for(&reg, Some(&[fam]));
@@ -728,6 +728,7 @@ fn export(args: &[String]) {
         max_len: arg(args, "--max-ops").and_then(|s| s.parse().ok()),
         max_variants: arg(args, "--max-variants").and_then(|s| s.parse().ok()),
         pars_hint: arg(args, "--pars").map(|s| s.split(',').filter_map(|x| x.parse().ok()).collect()),
+        max_blocks: arg(args, "--max-blocks").and_then(|s| s.parse().ok()),
     };
     let anchors = Anchors::compute_for(&reg, Some(&fams));
     install_quiet_panic_hook();
